@@ -19,7 +19,7 @@ from pynenc.client_data_store.base_client_data_store import BaseClientDataStore
 from pynenc.conf.config_client_data_store import ConfigClientDataStoreSQLite
 from pynenc.util.sqlite_utils import (
     TableNames,
-    delete_tables_with_prefix,
+    delete_tables,
     get_sqlite_sqlite_db_path,
 )
 
@@ -105,5 +105,5 @@ class SQLiteClientDataStore(BaseClientDataStore):
 
     def _purge(self) -> None:
         """Clear all stored client data."""
-        delete_tables_with_prefix(self.sqlite_db_path, self.tables.table_prefix)
+        delete_tables(self.sqlite_db_path, self.tables.all_tables())
         self._init_tables()
